@@ -2,11 +2,11 @@
 
 STRVALS = {"pkg": "./pkg/strvals", "files": ["pkg/strvals/h_c04_set.go"]}
 
-STORAGE = {"pkg": "./pkg/storage", "files": ["pkg/storage/h_common.go", "pkg/storage/h_c10_mem.go", "pkg/storage/h_c01_prune.go"]}
+STORAGE = {"pkg": "./pkg/storage", "files": ["pkg/storage/h_common.go", "pkg/storage/h_c10_mem.go", "pkg/storage/h_c01_prune.go", "pkg/storage/h_c10_helpers.go"]}
 
 LOADER = {"pkg": "./pkg/chart/v2/loader", "files": ["pkg/chart/v2/loader/h_c16_names.go"]}
 
-RELUTIL = {"pkg": "./pkg/release/util", "files": ["pkg/release/util/h_c08_part.go", "pkg/release/util/h_c08_splitorder.go"]}
+RELUTIL = {"pkg": "./pkg/release/util", "files": ["pkg/release/util/h_c08_part.go", "pkg/release/util/h_c08_splitorder.go", "pkg/release/util/h_c08_stable.go"]}
 
 REPOPKG = {"pkg": "./pkg/repo", "files": ["pkg/repo/h_c18_index.go"]}
 
@@ -16,7 +16,7 @@ CHARTUTIL = {"pkg": "./pkg/chart/v2/util", "files": ["pkg/chart/v2/util/h_values
 
 CHECKS = {
     "C11": {
-        "runs": [dict(pkg="./pkg/chart/v2/util", files=["pkg/chart/v2/util/h_c11_enabled.go", "pkg/chart/v2/util/h_c11_deep.go", "pkg/chart/v2/util/h_c11_twice.go"], entries=["H11Enabled", "H11Alias", "H11Deep", "H11Twice"], bounds_quick={"minor": 4}, bounds_thorough={"minor": 5}),
+        "runs": [dict(pkg="./pkg/chart/v2/util", files=["pkg/chart/v2/util/h_c11_enabled.go", "pkg/chart/v2/util/h_c11_deep.go", "pkg/chart/v2/util/h_c11_twice.go", "pkg/chart/v2/util/h_c11_path.go"], entries=["H11Enabled", "H11Alias", "H11Deep", "H11Twice", "H11Path"], bounds_quick={"minor": 4}, bounds_thorough={"minor": 5}),
                  dict(CHARTUTIL, entries=["H11Scope"], bounds_quick={"depth": 2, "slim": 1, "pdepth": 0}, bounds_thorough={"depth": 2, "slim": 1, "pdepth": 1})],
         "bounds": {}, "assumptions": [],
     },
@@ -24,7 +24,9 @@ CHECKS = {
     "C17": {
         "runs": [dict(pkg="./pkg/provenance", files=["pkg/provenance/h_c17_verify.go"], entries=["H17Verify"], bounds_quick={"entries": 2}, bounds_thorough={"entries": 3}),
                  dict(pkg="./pkg/downloader", files=["pkg/downloader/h_c19_resolve.go"], entries=["H19Download"], limits={"max_instrs": 20000000, "max_decisions": 3000},
-                      optional_sites=["creds/only-to-repository-origin", "creds/only-when-configured", "creds/sent-to-own-repository"])],
+                      optional_sites=["creds/only-to-repository-origin", "creds/only-when-configured", "creds/sent-to-own-repository"]),
+                 dict(pkg="./pkg/action", files=["pkg/action/h_c19_locate.go"], entries=["H19Locate"], limits={"max_instrs": 20000000, "max_decisions": 3000},
+                      optional_sites=["locate/creds-only-to-repository-origin", "locate/creds-only-when-configured", "locate/index-request-carries-credentials"])],
         "bounds": {}, "assumptions": [],
     },
     "C18": {
@@ -33,7 +35,7 @@ CHECKS = {
         "bounds": {}, "assumptions": [],
     },
     "C08": {
-        "runs": [dict(RELUTIL, entries=["H08Partition", "H08Order", "H08SplitOrder"], bounds_quick={"files": 1, "docs": 2, "kinds": 5, "odocs": 3, "docindex": 9999}, bounds_thorough={"files": 1, "docs": 3, "kinds": 7, "odocs": 4, "docindex": 99999},
+        "runs": [dict(RELUTIL, entries=["H08Partition", "H08Order", "H08SplitOrder", "H08Stable"], bounds_quick={"files": 1, "docs": 2, "kinds": 5, "odocs": 3, "docindex": 9999, "stablelen": 13, "stablekinds": 2}, bounds_thorough={"files": 1, "docs": 3, "kinds": 7, "odocs": 4, "docindex": 99999, "stablelen": 16, "stablekinds": 2},
                       optional_sites=["partition/partials-never-applied"]),
                  dict(pkg="./pkg/kube", files=["pkg/kube/h_c02_update.go", "pkg/kube/h_c08_barrier.go"], entries=["H08Barrier"], bounds_quick={"objects": 3}, bounds_thorough={"objects": 4})],
         "bounds": {}, "assumptions": [],
@@ -64,7 +66,7 @@ CHECKS = {
     },
     "C01": {
         "runs": [dict(STORAGE, entries=["H01Prune"], bounds_quick={"recs": 3, "maxver": 97, "maxhist": 4, "nstatus": 4}, bounds_thorough={"recs": 3, "maxver": 997, "maxhist": 6, "nstatus": 5}),
-                 dict(ACTION, entries=["H01Hist", "H01Crash"], bounds_quick={"depth": 2, "faults": 1, "crashes": 0, "maxhist": 2}, bounds_thorough={"depth": 2, "faults": 1, "crashes": 0, "maxhist": 3},
+                 dict(ACTION, entries=["H01Hist", "H01Crash", "H01Kept"], bounds_quick={"depth": 2, "faults": 1, "crashes": 0, "maxhist": 2}, bounds_thorough={"depth": 2, "faults": 1, "crashes": 0, "maxhist": 3},
                       limits={"max_instrs": 20000000, "max_decisions": 2000}),
                  dict(ACTION, entries=["H01Hist"], tiers=["thorough"], bounds_thorough={"depth": 3, "faults": 0, "crashes": 0, "maxhist": 2, "slimflags": 1},
                       limits={"max_instrs": 30000000, "max_decisions": 3000})],
@@ -72,7 +74,7 @@ CHECKS = {
     },
     "C02": {
         "runs": [dict(pkg="./pkg/kube", files=["pkg/kube/h_c02_update.go"], entries=["H02Update", "H02Delete"], bounds_quick={"objects": 2, "spaces": 2}, bounds_thorough={"objects": 3, "spaces": 1}),
-                 dict(ACTION, entries=["H02Uninstall", "H02Hist"], bounds_quick={"docs": 2}, bounds_thorough={"docs": 3}, limits={"max_instrs": 20000000, "max_decisions": 2000})],
+                 dict(ACTION, entries=["H02Uninstall", "H02Hist", "H02Install"], bounds_quick={"docs": 2}, bounds_thorough={"docs": 3}, limits={"max_instrs": 20000000, "max_decisions": 2000})],
         "bounds": {}, "assumptions": [],
     },
     "C03": {
@@ -115,7 +117,7 @@ CHECKS = {
         "bounds": {}, "assumptions": [],
     },
     "C10": {
-        "runs": [dict(STORAGE, entries=["H10MemStep"], bounds_quick={"recs": 2, "namelen": 3, "maxver": 9}, bounds_thorough={"recs": 2, "namelen": 3, "maxver": 99}),
+        "runs": [dict(STORAGE, entries=["H10MemStep", "H10Helpers"], bounds_quick={"recs": 2, "namelen": 3, "maxver": 9, "hrevs": 3}, bounds_thorough={"recs": 2, "namelen": 3, "maxver": 99, "hrevs": 4}),
                  dict(pkg="./pkg/storage/driver", files=["pkg/storage/driver/h_c10_backends.go"], entries=["H10Backends", "H10ReadModifyWrite"],
                       bounds_quick={"recs": 1, "maxver": 2, "labels": 4}, bounds_thorough={"recs": 2, "maxver": 2, "labels": 2})],
         "bounds": {}, "assumptions": [],
@@ -150,6 +152,7 @@ CHECKS = {
             dict(pkg="./pkg/chart/v2/util", files=["pkg/chart/v2/util/h_c20_import.go", "pkg/chart/v2/util/h_c20_deps.go"], entries=["H20Import", "H20Deps"], bounds_quick={"entries": 1, "depentries": 2}, bounds_thorough={"entries": 2, "depentries": 2}),
             dict(pkg="./pkg/storage/driver", files=["pkg/storage/driver/h_c20_decode.go"], entries=["H20Decode"], bounds_quick={"payload": 5}, bounds_thorough={"payload": 7}),
             dict(pkg="./pkg/ignore", files=["pkg/ignore/h_c15_ignore.go"], entries=["H15Ignore"], bounds_quick={"linelen": 3, "pathlen": 2}, bounds_thorough={"linelen": 4, "pathlen": 3}),
+            dict(pkg="./pkg/chart/v2/loader", files=["pkg/chart/v2/loader/h_c20_loadfiles.go"], entries=["H20LoadFiles"], bounds_quick={"lfnamelen": 4}, bounds_thorough={"lfnamelen": 6}),
         ],
         "bounds": {},
         "assumptions": [],
